@@ -362,6 +362,17 @@ func c09ApplicationOrder(r *an.Run) {
 				return an.IsErrorType(last.Type()) && !an.IsNilConst(last)
 			})
 			r.Check(msg == "", short(f)+"|all-visited|"+loopBoundText(il), match.Pos(), "every change of every program is tried, in order (no break) %s", msg)
+			// what is iterated is the compiled sequence itself (a field / parameter), not a list derived from it
+			// before the loop: a selection made up front is judged against the file as it was before the
+			// earlier changes of the same run edited it
+			seq := ""
+			if bc, ok := il.Bound.(*ssa.Call); ok && an.IsCallTo(bc, "builtin:len") {
+				seq = an.PathIn(bc.Call.Args[0], f)
+				if _, isCall := an.Root(bc.Call.Args[0]).(*ssa.Call); isCall {
+					seq = ""
+				}
+			}
+			r.Check(seq != "", short(f)+"|iterates-the-compiled-sequence|"+loopBoundText(il), loopPos(l), "the loop runs over the compiled programs / changes themselves (%q), not over a list computed from them before the loop", seq)
 		}
 		want := 2
 		if spec[0] == patchP {
